@@ -850,17 +850,17 @@ func TestC26(t *testing.T) {
 	c.Assume("secp256k1 / amino-multisig signature verification of the SDK is the trusted base; the harness' ground truth is the exact sign bytes it signed")
 	c.Assume("an honest operation being refused is not a violation of the statement; it is counted (honest_rejected) and bounded by floors on accepted operations")
 	for k, v := range map[string]int64{
-		"sequence_bumps_checked": 200, "accepted_header": 40, "accepted_member": 100, "accepted_nonmember": 45, "hostile_rejected": 290, "replays": 2000,
-		"freezes": 6, "frozen_probes_rejected": 25, "accepted_msg_ConnOpenAck": 5, "accepted_msg_ChanOpenAck": 5, "msg_replays": 18,
-		"hostile_rejected_sequence": 30, "hostile_rejected_timestamp": 25, "hostile_rejected_diversifier": 25, "hostile_rejected_path": 20, "hostile_rejected_data": 20,
-		"hostile_rejected_earlier-timestamp": 25, "hostile_rejected_replay": 50,
+		"sequence_bumps_checked": 300, "accepted_header": 60, "accepted_member": 130, "accepted_nonmember": 65, "hostile_rejected": 430, "replays": 3000,
+		"freezes": 8, "frozen_probes_rejected": 32, "accepted_msg_ConnOpenAck": 7, "accepted_msg_ChanOpenAck": 7, "msg_replays": 25,
+		"hostile_rejected_sequence": 45, "hostile_rejected_timestamp": 35, "hostile_rejected_diversifier": 35, "hostile_rejected_path": 30, "hostile_rejected_data": 30,
+		"hostile_rejected_earlier-timestamp": 35, "hostile_rejected_replay": 70, "hostile_rejected_foreign-key": 35, "hostile_rejected_below-threshold": 8,
 	} {
 		c.Floor(k, v)
 	}
 
 	w := kit.NewWorld(t, 1)
 	ch := w.Chains[0]
-	n := c.N(40, 80)
+	n := c.N(60, 90)
 	for i := 0; i < n; i++ {
 		if c.SkipCase(i) {
 			continue
